@@ -101,6 +101,50 @@ theorem reads_commute (F : FileSem) (s : State) (a b : Op) (ha : isRead a = true
     run F s (b :: a :: rest) = ((run F s rest).1, (step F s b).2 :: (step F s a).2 :: (run F s rest).2) := by
   simp [run, read_keeps_state F s a ha, read_keeps_state F s b hb]
 
+/-! ## sheet lookup -/
+
+/-- **unknown_sheet_is_error**: a name that is not in the reader's sheet table gives `WorksheetNotFound` for the
+    value read, the borrowed read and the formula read — never the content of some other sheet -/
+theorem unknown_sheet_is_error (F : FileSem) (s : State) (name : String)
+    (h : ∀ e ∈ F.parts, e.1 ≠ name) :
+    (step F s (.rangeRef name)).2 = worksheetNotFound ∧
+    (step F s (.range name)).2 = F.toOwned worksheetNotFound ∧
+    (step F s (.formula name)).2 = worksheetNotFound := by
+  have hl : lookupSheet F name = none := by
+    unfold lookupSheet
+    rw [Option.map_eq_none_iff, List.find?_eq_none]
+    intro e he
+    have := h e he
+    simpa using this
+  simp [step, rangeOut, FileSem.rangeRef, FileSem.formula, hl]
+
+/-- a known name reads the part of the FIRST table entry carrying that name (and only that part) -/
+theorem known_sheet_reads_its_part (F : FileSem) (s : State) (name part : String) (pre post : List (String × String))
+    (hparts : F.parts = pre ++ (name, part) :: post) (hpre : ∀ e ∈ pre, e.1 ≠ name) :
+    (step F s (.rangeRef name)).2 = F.partRange part s.hdr ∧ (step F s (.formula name)).2 = F.partFormula part := by
+  have hl : lookupSheet F name = some part := by
+    unfold lookupSheet
+    rw [hparts, List.find?_append]
+    have : pre.find? (fun e => e.1 == name) = none := by
+      rw [List.find?_eq_none]; intro e he; have := hpre e he; simpa using this
+    simp [this]
+  simp [step, FileSem.rangeRef, FileSem.formula, hl]
+
+/-- two different names never read each other's part when the table has one entry per name -/
+theorem distinct_names_distinct_parts (F : FileSem) (n1 n2 p1 p2 : String)
+    (h1 : lookupSheet F n1 = some p1) (h2 : lookupSheet F n2 = some p2) (hne : n1 ≠ n2) :
+    (n1, p1) ∈ F.parts ∧ (n2, p2) ∈ F.parts := by
+  unfold lookupSheet at h1 h2
+  obtain ⟨e1, he1, rfl⟩ := Option.map_eq_some_iff.mp h1
+  obtain ⟨e2, he2, rfl⟩ := Option.map_eq_some_iff.mp h2
+  have m1 := List.mem_of_find?_eq_some he1
+  have m2 := List.mem_of_find?_eq_some he2
+  have k1 := List.find?_some he1
+  have k2 := List.find?_some he2
+  simp only [beq_iff_eq] at k1 k2
+  subst k1 k2
+  exact ⟨m1, m2⟩
+
 /-- auto-detection wrapper: `Sheets` is a tagged union whose every method forwards to the wrapped reader -/
 inductive Kind where | xls | xlsx | xlsb | ods
 def stepAuto (F : FileSem) (_k : Kind) (s : State) (op : Op) : State × Out := step F s op
@@ -109,8 +153,10 @@ theorem auto_equals_format_reader (F : FileSem) (k : Kind) (s : State) (op : Op)
 
 /-! non-vacuity: a concrete file and history -/
 def demoFile : FileSem :=
-  { eager := false, sheets := ["A", "B"], rangeRef := fun n h => n ++ (match h with | .firstNonEmpty => "@d" | .row k => "@" ++ toString k),
-    toOwned := fun o => "own(" ++ o ++ ")", formula := fun n => "f" ++ n, mergeCells := fun _ => "m",
+  { eager := false, sheets := ["A", "B"], parts := [("A", "A"), ("B", "B")],
+    partRange := fun n h => n ++ (match h with | .firstNonEmpty => "@d" | .row k => "@" ++ toString k),
+    partFormula := fun n => "f" ++ n,
+    toOwned := fun o => "own(" ++ o ++ ")", mergeCells := fun _ => "m",
     mergedAll := "M", mergedBySheet := fun n => "M" ++ n, tableNames := "T",
     tableMeta := fun n => if n = "t1" then .ok ("A", "w") else .error "err:TableNotFound",
     window := fun r w => r ++ "|" ++ w, vba := "v", metadata := "md" }
